@@ -1,0 +1,29 @@
+//go:build verif
+
+package proxy
+
+// Verification export hooks for property C33 (PROXY protocol trusted upstreams) — /verif/harness/cmd/c33.
+// Thin package-internal wrappers only. Compiled only with `-tags verif`.
+
+import (
+	"net"
+	"time"
+
+	"go.minekube.com/gate/pkg/edition/java/config"
+)
+
+// VerifC33Wrap = newProxyProtocol(cfg) followed by wrapConnTimeout(conn, readHeaderTimeout),
+// the two calls New() and listenAndServe make for an accepted connection.
+func VerifC33Wrap(cfg *config.Config, conn net.Conn, readHeaderTimeout time.Duration) (net.Conn, error) {
+	pp, err := newProxyProtocol(cfg)
+	if err != nil {
+		return nil, err
+	}
+	return pp.wrapConnTimeout(conn, readHeaderTimeout), nil
+}
+
+// VerifC33WrapNil = wrapConnTimeout on a nil *proxyProtocol (the unset wrapper).
+func VerifC33WrapNil(conn net.Conn, readHeaderTimeout time.Duration) net.Conn {
+	var pp *proxyProtocol
+	return pp.wrapConnTimeout(conn, readHeaderTimeout)
+}
